@@ -1146,22 +1146,32 @@ class Gen:
         base = rng.choice((0, 100, -40))
         slots = []
         splits = rng.sample(range(0, deg + 1), 2)
+        dcls = None
+        if kind in ("SMG", "SCRG") and rng.random() < 0.5:
+            deg = rng.choice((4, 4, 5, 6))
+            splits = rng.sample(range(0, deg + 1), 2)
+            dcls = {4: rng.choice(("Tetrahedral", "SquarePlanar")), 5: "TrigonalBipyramidal", 6: "Octahedral"}[deg]
         for k in splits:
-            atoms, bonds = [], []
+            atoms, bonds, descs = [], [], []
             nxt = base
             for h, nx in ((0, k), (1, deg - k)):
                 c = nxt
                 nxt += 1
                 atoms.append([c, hub])
+                lig = []
                 for i in range(deg):
                     atoms.append([nxt, x if i < nx else y])
                     bonds.append([c, nxt, None])
+                    lig.append(nxt)
                     nxt += 1
+                if dcls:
+                    rng.shuffle(lig)
+                    descs.append([dcls, [c, *lig], rng.choice((1, -1)) if geom.CHIRAL[dcls] else 0])
             rng.shuffle(atoms)
             rng.shuffle(bonds)
             s = self.slot_id()
             slots.append(s)
-            yield dict(k="spec", dst=s, cls=kind, atoms=atoms, bonds=bonds)
+            yield dict(k="spec", dst=s, cls=kind, atoms=atoms, bonds=bonds, astereo=descs)
         a, b = slots
         if self.w.graph(a) is None or self.w.graph(b) is None:
             return
@@ -1356,6 +1366,20 @@ class Gen:
                 if sl is None:
                     return
                 yield self.struct_edit(ts, sl.model, add_only=True)
+        if rng.random() < 0.4 and self.room():
+            # the same product (reactant) with its atoms inserted in another order
+            which = rng.choice((r, p))
+            sl = self.w.graph(which)
+            if sl is not None and sl.model.buildable():
+                order = sl.model.sorted_atoms()
+                rng.shuffle(order)
+                d = self.slot_id()
+                yield dict(k="subgraph", src=which, dst=d, atoms=order, **{"as": "list"})
+                if self.w.graph(d) is not None:
+                    if which == r:
+                        r = d
+                    else:
+                        p = d
         if use_ts and stereo and rng.random() < 0.35:
             sr, st = self.w.graph(r), self.w.graph(ts)
             if sr is not None and st is not None and sr.model.astereo:
